@@ -169,12 +169,15 @@ void h_subscribe_real(void) {
     int r0 = 0;
     if (vin_autofree & 1) { r0 = m_mod_ps_subscribe(&modobj, topic, fo, &up1); V_ASSUME(r0 == 0); }      /* an earlier subscription to the same topic (any flags, possibly M_SRC_DUP) */
     size_t freed_before = g_nfreed;
+    g_alloc_calls = 0; g_oom_mask = vin_pipe_len & 3;      /* the first and/or second allocation of the call under test may fail (subscription object, duplicated topic) */
     int r = m_mod_ps_subscribe(&modobj, topic, fn, &up2);
+    bool oom = (vin_pipe_len & 3) != 0;
     unsigned prio = fn & 7u;
     /* subscribing (again) to a topic with a well-formed flag word succeeds, whatever was subscribed before */
-    if (prio == 0 || prio == 1 || prio == 2 || prio == 4) V_CHECK("C09.subscribing-a-topic-again-succeeds", r == 0);
-    /* every pattern the library compiled is either the one of the subscription that is stored, or was released: none is left behind */
-    if (r == 0) V_CHECK("C04.every-compiled-pattern-is-owned-by-the-stored-subscription-or-released", g_regcomp_calls - g_regfree_calls == (g_ent.present ? 1u : 0u));
+    if ((prio == 0 || prio == 1 || prio == 2 || prio == 4) && !oom) V_CHECK("C09.subscribing-a-topic-again-succeeds", r == 0);
+    /* every pattern the library compiled is either the one of the subscription that is stored, or was released: none is left behind -- also when the call fails
+     * because the subscription object or the duplicated topic could not be allocated */
+    V_CHECK("C04.every-compiled-pattern-is-owned-by-the-stored-subscription-or-released", g_regcomp_calls - g_regfree_calls == (g_ent.present ? 1u : 0u));
     if (r == 0) {
         ev_src_t *cur = g_ent.val;
         V_CHECK("C09.one-subscription-per-topic-carrying-the-latest-user-pointer", g_ent.present && cur != NULL && cur->userptr == (void *)&up2 && cur->mod == &modobj && cur->type == M_SRC_TYPE_PS);
@@ -184,6 +187,7 @@ void h_subscribe_real(void) {
     }
     V_COVER("resubscribe-dup-with-other-flags", r == 0 && (vin_autofree & 1) && (fo & M_SRC_DUP) && fo != fn); V_COVER("subscribe-first", r == 0 && !(vin_autofree & 1));
     V_COVER("resubscribe-same-flags", r == 0 && (vin_autofree & 1) && fo == fn); V_COVER("subscribe-two-priorities-refused", r == -EINVAL);
+    V_COVER("subscribe-object-allocation-fails", r != 0 && (vin_pipe_len & 1) && prio == 0); V_COVER("subscribe-topic-copy-allocation-fails", r != 0 && (vin_pipe_len & 3) == 2 && (fn & M_SRC_DUP) && prio == 0);
     V_CANARY();
 }
 #endif
